@@ -7,10 +7,11 @@ import Spec.Vector
 import Spec.Helpers
 import Spec.Routes
 import Spec.Args
+import Spec.RasterJudge
 
 namespace Spec
 
-def handlers : List (String → Req → Option String) := [handleCore, Vector.handle, Helpers.handle, Routes.handle, Args.handle]
+def handlers : List (String → Req → Option String) := [handleCore, Vector.handle, Helpers.handle, Routes.handle, Args.handle, Raster.handle]
 
 def judgeLine (line : String) : String :=
   let (cmd, r) := parseReq line
